@@ -141,6 +141,19 @@ def _cmp(got, ref, what, stats, tol=TOL):
         raise Violation('%s: entry %s is %.12g, reference %.12g (rel. %.2e)' % (what, tuple(int(k) for k in i), float(got[i]), float(ref[i]), e))
 
 
+class _Snap(dict):
+    """dict of driver results that records a byte snapshot of every value when it is stored"""
+
+    def __init__(self, rec, snaps):
+        dict.__init__(self)
+        self._rec, self._snaps = rec, snaps
+
+    def __setitem__(self, key, val):
+        dict.__setitem__(self, key, val)
+        if isinstance(val, np.ndarray):
+            self._snaps[(self._rec, key)] = val.tobytes()
+
+
 def prop_drivers(case, stats):
     kind = case['kind']           # 'scalar' or 'vector'
     pts = case['pts'][0]
@@ -180,9 +193,10 @@ def prop_drivers(case, stats):
     v = case['v']
     w = case['w']
     results = {}
+    snaps = {}
     for rec in ('nd', 'utpm'):
         cg = guard(record, case, rec)
-        res = {}
+        res = _Snap(rec, snaps)
         for tag, x in evals:
             x = np.array(x, dtype=float)
             r = refs[tag]
@@ -219,6 +233,12 @@ def prop_drivers(case, stats):
             res['Jseries'] = Jt.data
             _cmp(Jt.data, refs['Jseries'], 'jacobian(UTPM x) (graph recorded with %s)' % rec, stats)
         results[rec] = res
+        # values returned by earlier driver calls (held without copying) must not have been changed by later calls
+        for key, val in res.items():
+            arr = np.asarray(val)
+            snap = snaps.get((rec, key))
+            if snap is not None and arr.tobytes() != snap:
+                raise Violation('the value returned earlier by %s was changed by a later driver call on the same graph' % (key,))
     # independence of how the graph was recorded
     for key, a in results['nd'].items():
         b = results['utpm'][key]
